@@ -90,6 +90,14 @@ func RunPipe(sc PipeScenario) (fs []Finding, trace string) {
 		fs = append(fs, Finding{Sig: fmt.Sprintf("C08 %s op=%s cfg=%s exp=%s got=%s", clause, opTag(op), cfgClass(sc.Cfg), exp, got), What: what, Clause: clause})
 	}
 	for _, op := range sc.Prefix {
+		if op.Kind == "evict" { // the cache's own eviction: the model does not change
+			for _, k := range w.L1.Keys() {
+				if ck, _, ok := ownerOf(k); k == op.Key || (sc.Cfg.L1H == "chunked" && ok && ck == op.Key) {
+					w.L1.Evict(k)
+				}
+			}
+			continue
+		}
 		op.Opaque = uint32(0x100 + 16*len(s.Ops))
 		ApplyModel(m, sc.Cfg.Proto, op)
 		s.Do(op)
@@ -171,11 +179,16 @@ func runC08(c *rt.Ctx) {
 		nil,
 		{{Kind: "set", Key: "a", Val: "hello", Flags: 3}},
 		{{Kind: "set", Key: "a", Val: "", Flags: 0xffffffff}, {Kind: "set", Key: "b", Val: "bee", Flags: 1}},
+		// the key has been pushed out of L1 and lives in L2 only (commands then take their L1-miss paths)
+		{{Kind: "set", Key: "a", Val: "hello", Flags: 3}, {Kind: "evict", Key: "a"}},
 	}
 	item := 0
 	for _, cfg := range cfgs {
 		alpha := pipeAlphabet(cfg)
 		for pi, pre := range prefixes {
+			if pi == 3 && cfg.Orca == "l1only" {
+				continue // nothing behind L1 to serve an evicted key from
+			}
 			// enumerate all pipelines of length 1..maxLen; the first element selects the work item
 			for f := range alpha {
 				item++
